@@ -200,34 +200,48 @@ class Program(object):
         # type: () -> str
         """ Returns a string with commands formatted in the MPilot command file syntax. """
 
+        def quote(text):
+            # type: (str) -> str
+
+            for char, escape in (("\\", "\\\\"), ('"', '\\"'), ("\n", "\\n"), ("\r", "\\r"), ("\t", "\\t")):
+                text = text.replace(char, escape)
+            return '"{}"'.format(text)
+
         def serialize_value(value, argument, command):
             # type: (Any, Argument, Command) -> str
 
-            param = command.inputs[argument.name]
+            param = command.inputs.get(argument.name)
 
-            if isinstance(param, ResultParameter) or (
-                isinstance(param, ListParameter)
-                and isinstance(param.value_type, ResultParameter)
-            ):
+            while isinstance(param, ListParameter):
+                param = param.value_type
+
+            if isinstance(value, Argument):
+                value = value.value
+            if isinstance(value, (list, tuple)):
+                return "[{}]".format(
+                    ", ".join(serialize_value(x, argument, command) for x in value)
+                )
+            if isinstance(value, Command):
+                return value.result_name
+            if isinstance(param, ResultParameter):
                 return str(value)
             if isinstance(value, six.string_types):
-                return '"{}"'.format(value)
+                return quote(value)
+            if isinstance(value, float) and not isinstance(value, bool):
+                text = repr(value)
+                if "e" in text and "." not in text:
+                    text = text.replace("e", ".0e")
+                return text
             else:
                 return str(value)
 
         def serialize_argument(argument, command):
             # type: (Argument, Command) -> str
 
-            if isinstance(argument, ListArgument):
-                return "[{}]".format(
-                    ", ".join(
-                        serialize_value(x, argument, command) for x in argument.value
-                    )
-                )
-            elif isinstance(argument.value, dict):
+            if isinstance(argument.value, dict):
                 return "[\n{}\n    ]".format(
                     ",\n".join(
-                        '        "{}": "{}"'.format(key, value)
+                        "        {}: {}".format(quote(six.text_type(key)), quote(six.text_type(value)))
                         for key, value in argument.value.items()
                     )
                 )
